@@ -171,7 +171,7 @@ class C02(SolverSuite):
                                "refineSolution": False}, "listeners": []}
             total = rng.randint(5000, 16000)
             ops = [{"a": "S0", "op": "create"}] + [{"a": "S0", "op": "iterate", "k": k} for k in G.gen_batches(rng, total, style="mixed")]
-            yield G.base_plan(self.prop, run_seed, {"S0": spec}, ops, clock=G.gen_clock(rng), long_run=total)
+            yield G.base_plan(self.prop, run_seed, {"S0": spec}, ops, clock=G.gen_clock(rng), long_run=total, wall_s=900)
             return
         yield self.gen_plan(rng, tier, run_seed)
 
